@@ -9,6 +9,7 @@ let parse_op toks =
   | ["hint"; p; k; v] -> OHint (n p, z k, z v)
   | ["hintc"; p; k; v; _] -> OHint (n p, z k, z v)   (* hinted insert with the position the implementation chose *)
   | ["remk"; k] -> ORemKey (z k)
+  | ["remkc"; k; _] -> ORemKey (z k)               (* remove(key) with the rank of the entry the implementation removed *)
   | ["remi"; p] -> ORemAt (n p)
   | ["remf"] -> ORemFront
   | ["remb"] -> ORemBack
@@ -133,6 +134,7 @@ let () =
          let o = parse_op toks in
          let ch = (match toks with
              | ["hintc"; _; _; _; r] -> nat_of_int (int_of_string r)   (* relational spec: check the implementation's choice *)
+             | ["remkc"; _; r] -> nat_of_int (int_of_string r)
              | _ -> choice_of !flav st o) in
          let (st', _) = step !flav st o in
          let (sp', r) = spec_step !flav sp o ch in
